@@ -1,9 +1,8 @@
 (* C06 — SQLite store: each query equals the filter spec over stored, live
    events.  Statements only; proofs are in SqlInv / SqlAbs / SqlQuery /
-   SqlProofs / SqlPinned.  PINNED TREE: the full statement is refuted by the
-   two witnesses at the end (defects F6, F7); the theorem is proved with
-   exactly those two cases excluded. *)
-From Moc Require Import SqlProofs SqlPinned.
+   SqlProofs / SqlProofsFixed.  After the repairs of F6 and F7 the full
+   statement is proved (C06_query_correct). *)
+From Moc Require Import SqlProofs SqlProofsFixed.
 From Moc.Gen Require Import GenSql.
 Open Scope Z_scope.
 
@@ -62,47 +61,40 @@ Theorem C06_query_correct_core :
 Proof. exact query_correct_history. Qed.
 Print Assumptions C06_query_correct_core.
 
-(** pinned tree: proved with two-element e/a tags in deletion requests and
-    without `limit: 0` *)
-Theorem C06_query_correct_partial :
+(** the property: every batch history of gate-valid events with functional
+    ids, every non-empty list of gate-valid filters (limit 0, extra tag
+    elements in deletion requests included) *)
+Theorem C06_query_correct :
   forall (xx : Z -> str -> Z) (md5 : str -> str) seed (h : list (list event)) fs maxLimit,
   no_collision xx md5 seed (concat h) fs ->
   gate_valid (concat h) -> ids_functional (concat h) ->
   e_refs_canonical (concat h) = true -> a_refs_scoped (concat h) = true ->
-  k5_tags_two (concat h) ->
   fs <> [] -> Forall (fun f => gate_valid_filter f = true) fs -> 0 < maxLimit <= NoLimit ->
-  (forall f, In f fs -> f_limit f <> Some 0) ->
   exists out, query (run seed empty_db h) fs maxLimit = Some out /\ query_spec (concat h) fs maxLimit out.
-Proof. exact query_correct_partial. Qed.
-Print Assumptions C06_query_correct_partial.
+Proof. exact query_correct. Qed.
+Print Assumptions C06_query_correct.
 
-(** the hypotheses are satisfiable on a history with a replacement and an
-    effective deletion *)
-Example C06_query_correct_partial_example :
-  let h := [[w_meta1; w_note4]; [w_meta2; w_del4]] in
+Theorem C06_k5_counted_always : forall es, k5_counted es.
+Proof. exact k5_counted_always. Qed.
+
+Theorem C06_limits_agree_always : forall fs maxLimit,
+  Forall (fun f => gate_valid_filter f = true) fs -> 0 < maxLimit <= NoLimit -> limits_agree fs maxLimit.
+Proof. exact limits_agree_always. Qed.
+
+(** the hypotheses are satisfiable; the former witnesses of F6 / F7 behave as specified *)
+Example C06_query_correct_example :
+  let h := [[w_meta1; w_note]; [w_del3]] in
   gate_valid (concat h) /\ ids_functional (concat h) /\
-  e_refs_canonical (concat h) = true /\ a_refs_scoped (concat h) = true /\ k5_tags_two (concat h) /\
-  query (run 0 empty_db h) [f_all] NoLimit = Some [w_meta2; w_del4].
-Proof. exact query_correct_partial_example. Qed.
+  e_refs_canonical (concat h) = true /\ a_refs_scoped (concat h) = true /\
+  query (run 0 empty_db h) [f_all; f_limit0] NoLimit = Some [w_del3; w_meta1].
+Proof. exact query_correct_example. Qed.
 
-(** F7 (pinned tree): `limit: 0` returns every match *)
-Theorem C06_query_limit0_refuted :
-  exists (h : list (list event)) fs out,
-    gate_valid (concat h) /\ ids_functional (concat h) /\ fs <> [] /\
-    Forall (fun f => gate_valid_filter f = true) fs /\
-    query (run 0 empty_db h) fs NoLimit = Some out /\ ~ query_spec (concat h) fs NoLimit out.
-Proof. exact query_limit0_refuted. Qed.
-Print Assumptions C06_query_limit0_refuted.
+Example C06_limit0_selects_nothing : query (run 0 empty_db [[w_note]]) [f_limit0] NoLimit = Some [].
+Proof. exact limit0_selects_nothing. Qed.
 
-(** F6 (pinned tree): ["e", id, relay] in a deletion request deletes nothing *)
-Theorem C06_deletion_three_element_tag_refuted :
-  exists (h : list (list event)) fs out,
-    gate_valid (concat h) /\ ids_functional (concat h) /\
-    e_refs_canonical (concat h) = true /\ a_refs_scoped (concat h) = true /\ fs <> [] /\
-    Forall (fun f => gate_valid_filter f = true) fs /\
-    query (run 0 empty_db h) fs NoLimit = Some out /\ ~ query_spec (concat h) fs NoLimit out.
-Proof. exact deletion_three_element_tag_refuted. Qed.
-Print Assumptions C06_deletion_three_element_tag_refuted.
+Example C06_three_element_tag_deletes :
+  query (run 0 empty_db [[w_note; w_del3]]) [f_all] NoLimit = Some [w_del3].
+Proof. exact three_element_tag_deletes. Qed.
 
 (** the boolean oracle used by the correspondence run reflects the specification *)
 Theorem C06_storedb_is_stored : forall es x, storedb es x = true <-> stored es x.
